@@ -224,6 +224,27 @@ example :
     ∧ varMatches [] v2 (viewOf [] (clientVarOf [] v2)) = true := by
   decide +kernel
 
+/-- non-vacuity of `client_sees_variable` with BOTH facets at once (seeded batch 3): an allowed list
+    together with a two-sided range (and a default), and a list with a one-sided range; the client reads
+    back list *and* bounds, `varMatches` holds, and server and client agree with the definition on a
+    value the list admits but the range rejects (50), one the range admits but the list does not (3),
+    and a valid one (5) -/
+example :
+    let v1 : VarDef := ⟨"Lvl".toList, "ui2".toList, false, some "0".toList, some "10".toList,
+                        some ["1".toList, "5".toList, "50".toList], some "5".toList⟩
+    let v2 : VarDef := ⟨"Word".toList, "string".toList, false, none, some "m".toList,
+                        some ["cat".toList, "zebra".toList], none⟩
+    let c1 := clientVarOf [] v1
+    (parseVar (serializeVar [] v1)).map (fun c => (c.min, c.max, c.allowed))
+        = some (some "0".toList, some "10".toList, some ["1".toList, "5".toList, "50".toList])
+    ∧ varMatches [] v1 (viewOf [] c1) = true
+    ∧ varMatches [] v2 (viewOf [] (clientVarOf [] v2)) = true
+    ∧ ([Val.int 50, .int 3, .int 5].map (schemaOk [] v1), [Val.int 50, .int 3, .int 5].map (schemaOk [] c1))
+        = ([false, false, true], [false, false, true])
+    ∧ ([Val.str "cat".toList, .str "zebra".toList, .str "dog".toList].map (schemaOk [] (clientVarOf [] v2)))
+        = [true, false, false] := by
+  decide +kernel
+
 /-- **The served service description is parsed by the client into a model equal to the
     definition**: for every list of well-formed variables and every list of action definitions that
     the server can construct (`resolveActs`: each argument names an existing variable), the
